@@ -352,25 +352,19 @@ fn alphabet(k: usize, d: u64) -> Op {
     }
 }
 
-/// quick: depth 5 for K = 1..=4; thorough: depth 6 for K = 1..=4 plus depth 7 for K = 2
+/// quick: depth 5 for K = 1..=4; thorough: depth 7 for K = 1..=4
 fn enum_size(t: Tier) -> u64 {
-    match t {
-        Tier::Quick => 4 * 16u64.pow(5),
-        Tier::Thorough => 4 * 16u64.pow(6) + 16u64.pow(7),
-    }
+    4 * 16u64.pow(enum_depth(t))
+}
+
+fn enum_depth(t: Tier) -> u32 {
+    t.pick(5, 7)
 }
 
 fn enum_decode(t: Tier, i: u64) -> (usize, Vec<Op>) {
-    let (k, depth, mut j) = match t {
-        Tier::Quick => ((i / 16u64.pow(5)) as usize + 1, 5, i % 16u64.pow(5)),
-        Tier::Thorough => {
-            if i < 4 * 16u64.pow(6) {
-                ((i / 16u64.pow(6)) as usize + 1, 6, i % 16u64.pow(6))
-            } else {
-                (2, 7, i - 4 * 16u64.pow(6))
-            }
-        }
-    };
+    let depth = enum_depth(t);
+    let k = (i / 16u64.pow(depth)) as usize + 1;
+    let mut j = i % 16u64.pow(depth);
     let mut ops = vec![];
     for _ in 0..depth {
         ops.push(alphabet(k, j % 16));
@@ -426,7 +420,7 @@ fn check_rand(c: &RandCase, st: &mut Stats) -> Result<(), String> {
 pub fn property() -> Property {
     Property {
         id: "C17",
-        rule: "enumerated: every sequence over a 16-operation alphabet {provision ok/too small/give back, new_pdu, new_frag(id), take_frag(id), save last/oldest/fresh(id)} with ids {0,1,K,K+1} (aliasing pairs) to depth 5 (quick) / 6 for K=1..4 and 7 for K=2 (thorough); generated: sequences of up to 80/200 operations, ids 0..=255, K=1..4. oracle: reference model (bag of free buffers + one context per slot) compared after every operation — result kind, identity (unique length) and content tag of every buffer, equality of contexts — and a final drain through the public trait. non-trivial = the sequence contains a refusal, a slot replacement by new_frag, or save -> take with aliasing id -> take with the right id",
+        rule: "enumerated: every sequence over a 16-operation alphabet {provision ok/too small/give back, new_pdu, new_frag(id), take_frag(id), save last/oldest/fresh(id)} with ids {0,1,K,K+1} (aliasing pairs) to depth 5 (quick) / 7 (thorough) for memories of 1..4 slots; generated: sequences of up to 80/200 operations, ids 0..=255, K=1..4. oracle: reference model (bag of free buffers + one context per slot) compared after every operation — result kind, identity (unique length) and content tag of every buffer, equality of contexts — and a final drain through the public trait. non-trivial = the sequence contains a refusal, a slot replacement by new_frag, or save -> take with aliasing id -> take with the right id",
         assumptions: &[
             "free-list capacity is probed on a fresh instance, not assumed",
             "any free buffer may be returned by new_pdu/new_frag; when a provisioned buffer is both too small and one too many either error is accepted; the fate of a buffer passed to a refused save_frag is not judged",
@@ -445,7 +439,7 @@ pub fn property() -> Property {
             Box::new(GenPart {
                 name: "random-sequences",
                 rule: "see property rule",
-                cases: (600_000, 2_000_000),
+                cases: (600_000, 10_000_000),
                 fuzz_decode: Some(crate::fuzzdec::c17_case),
                 strategy: rand_strategy,
                 check: check_rand,
